@@ -171,6 +171,8 @@ def fam_encx(rng, n):
         else:
             pt = rng.choice(PTYPES_BAD + [0x0800])
             ch = rand_chain(rng) if rng.chance(0.7) else []
+        if 0x100 <= pt < 0x600 and ch and rng.chance(0.5):
+            ch[-1] = (pt, bytes(range(2 * ((pt >> 8) - 1))))      # last extension id == protocol type in the forbidden range
         if rng.chance(0.03):
             ch = ch + [(0x0009, bytes(rng.range(3900, 4200)))]
         el = sum(2 + len(d) for _, d in ch)
@@ -215,11 +217,11 @@ def malformed_packet(rng):
 
 
 def dec_prelude(rng, c, slots=None, maxpdu=None, mgr=None, nbuf=None):
-    slots = rng.choice([1, 1, 2, 3, 4]) if slots is None else slots
+    slots = rng.choice([1, 1, 2, 3, 4] * 5 + [255, 256, 257]) if slots is None else slots
     maxpdu = rng.choice([0, 4, 16, 64, 200]) if maxpdu is None else maxpdu
     mgr = rng.choice(["simple", "signal", MGR_ALL]) if mgr is None else mgr
     c.add("DNEW %d %d %s" % (slots, maxpdu, mgr))
-    nbuf = rng.range(0, slots + 3) if nbuf is None else nbuf
+    nbuf = rng.range(0, min(slots, 4) + 3) if nbuf is None else nbuf
     c.meta["sizes"] = []
     for k in range(nbuf):
         size = maxpdu + 7 * k + rng.range(0, 3) * 100 + (rng.range(1, 3) if rng.chance(0.1) and maxpdu > 3 else 0) * -1
@@ -436,6 +438,20 @@ def fam_mem(rng, n, exhaustive_depth=0):
                 c.add("DNEW %d 8 simple" % slots, "DPROV 100")
                 emit(c, [al[j] for j in seq], 8)
                 out.append(c)
+    for slots in (255, 256, 257, 512):
+        for rep in range(3):
+            c = Case("memwide%d_%d" % (slots, rep))
+            c.add("DNEW %d 8 simple" % slots)
+            for k in range(4):
+                c.add("DPROV %d" % (20 + k))
+            ids = [0, 1, 254, 255, rng.below(256)]
+            for _ in range(rng.range(4, 14)):
+                f = rng.choice(ids)
+                c.add(rng.choice(["MNEWFRAG %s" % ctx(f, rng.range(0, 8)), "MTAKE %d" % f, "MSAVE", "DNEWPDU", "DPROVBACK"]))
+                if rng.chance(0.3):
+                    c.add("DOBS")
+            c.add("DOBS")
+            out.append(c)
     for i in range(n):
         c = Case("mem%d" % i)
         slots = rng.choice([0, 1, 2, 3, 4])
